@@ -124,6 +124,8 @@ class ModuleIdentityObject(
 
     @classmethod
     def _encode(cls, values: Dict[str, Any]):
+        if not isinstance(values, dict):  # a positional sequence in member order, like any other structure
+            values = dict(zip((member.name for member in cls.members), values))
         values = values.copy()
         values["product_type"] = PRODUCT_TYPES[values["product_type"]]
         values["vendor"] = VENDORS[values["vendor"]]
